@@ -116,6 +116,19 @@ def Err.id : Err → Ident
   | .second id .. => id
   | .multi id .. => id
 
+mutual
+/-- all visible nodes: the node, then its cause / its branches (pre-order) -/
+def reach : Err → List Err
+  | .leaf id k => [.leaf id k]
+  | .barrier id m h => [.barrier id m h]
+  | .wrap id k c => .wrap id k c :: reach c
+  | .second id c s => .second id c s :: reach c
+  | .multi id k cs => .multi id k cs :: reachL cs
+def reachL : List Err → List Err
+  | [] => []
+  | e :: r => reach e ++ reachL r
+end
+
 /-! ## Type details (`getTypeDetails`) -/
 
 def Err.ty : Err → TyName
@@ -161,14 +174,17 @@ def getMark (P : Proc) (e : Err) : Mark :=
   | .wrap _ (.withMark m t) _ => ⟨m, t⟩
   | _ => ⟨text e, (chain e).map (typeMark P)⟩
 
-/-- `equalMarks` as in the pinned code: `none` = index-out-of-range panic. -/
-def equalTys : List TMark → List TMark → Option Bool
-  | [], _ => some true
-  | _ :: _, [] => none
-  | a :: r, b :: s => if a = b then equalTys r s else some false
+/-- `equalMarks` (markers/markers.go, after the length check was added):
+    same message, same number of type marks, pairwise equal. -/
+def equalTys : List TMark → List TMark → Bool
+  | [], [] => true
+  | a :: r, b :: s => if a = b then equalTys r s else false
+  | _, _ => false
 
-def equalMarks (m1 m2 : Mark) : Option Bool :=
-  if m1.msg ≠ m2.msg then some false else equalTys m1.tys m2.tys
+def equalMarks (m1 m2 : Mark) : Bool :=
+  if m1.msg ≠ m2.msg then false
+  else if m1.tys.length ≠ m2.tys.length then false
+  else equalTys m1.tys m2.tys
 
 /-- The documented equivalence. -/
 def markEquiv (m1 m2 : Mark) : Bool := m1.msg = m2.msg && m1.tys = m2.tys
@@ -200,37 +216,33 @@ def isMethod (c r : Err) : Bool :=
       (!r.isValueKind) && ((r.id = idErrPermission && perm) || (r.id = idErrExist && exist) || (r.id = idErrNotExist && notExist))
   | _ => false
 
-/-- three-valued short-circuit or (`none` = panic) -/
-def orM (a : Option Bool) (b : Option Bool) : Option Bool :=
-  match a with
-  | none => none
-  | some true => some true
-  | some false => b
-
 /-- second loop of `Is`: compare marks along the single-cause chain. -/
-def isPhase2 (P : Proc) (refMark : Mark) : List Err → Option Bool
-  | [] => some false
-  | c :: rest => orM (equalMarks (getMark P c) refMark) (isPhase2 P refMark rest)
+def isPhase2 (P : Proc) (refMark : Mark) : List Err → Bool
+  | [] => false
+  | c :: rest => equalMarks (getMark P c) refMark || isPhase2 P refMark rest
 
 def selfMatch (c r : Err) : Bool := goEq c r || isMethod c r
 
 mutual
 /-- first loop of `Is(e, r)` (identity, Is methods, recursion into branches) -/
-def isPhase1 (P : Proc) (r : Err) : Err → Option Bool
-  | .leaf id k => some (selfMatch (.leaf id k) r)
-  | .barrier id m h => some (selfMatch (.barrier id m h) r)
-  | .wrap id k c => orM (some (selfMatch (.wrap id k c) r)) (isPhase1 P r c)
-  | .second id c s => orM (some (selfMatch (.second id c s) r)) (isPhase1 P r c)
-  | .multi id k cs => orM (some (selfMatch (.multi id k cs) r)) (isAnyBranch P r cs)
-def isAnyBranch (P : Proc) (r : Err) : List Err → Option Bool
-  | [] => some false
+def isPhase1 (P : Proc) (r : Err) : Err → Bool
+  | .leaf id k => selfMatch (.leaf id k) r
+  | .barrier id m h => selfMatch (.barrier id m h) r
+  | .wrap id k c => selfMatch (.wrap id k c) r || isPhase1 P r c
+  | .second id c s => selfMatch (.second id c s) r || isPhase1 P r c
+  | .multi id k cs => selfMatch (.multi id k cs) r || isAnyBranch P r cs
+def isAnyBranch (P : Proc) (r : Err) : List Err → Bool
+  | [] => false
   | b :: rest =>
-    orM (orM (isPhase1 P r b) (isPhase2 P (getMark P r) (chain b))) (isAnyBranch P r rest)
+    (isPhase1 P r b || isPhase2 P (getMark P r) (chain b)) || isAnyBranch P r rest
 end
 
-/-- `markers.Is(e, r)` for non-nil `e`, `r`.  `none` = panic. -/
-def is (P : Proc) (e r : Err) : Option Bool :=
-  orM (isPhase1 P r e) (isPhase2 P (getMark P r) (chain e))
+/-- `markers.Is(e, r)` for non-nil `e`, `r`. -/
+def isB (P : Proc) (e r : Err) : Bool :=
+  isPhase1 P r e || isPhase2 P (getMark P r) (chain e)
+
+/-- `Is` with a possible panic outcome (`none`); the repaired code has no panic point left. -/
+def is (P : Proc) (e r : Err) : Option Bool := some (isB P e r)
 
 /-- `Is` on possibly-nil errors. -/
 def isOpt (P : Proc) (e r : Option Err) : Option Bool :=
@@ -239,5 +251,42 @@ def isOpt (P : Proc) (e r : Option Err) : Option Bool :=
   | some _, none => some false
   | none, some _ => some false
   | some e, some r => is P e r
+
+/-! ### IsAny (transliterated: a different traversal order, same answer — see Props/C08) -/
+
+def dropNone : List (Option Err) → List Err
+  | [] => []
+  | none :: r => dropNone r
+  | some e :: r => e :: dropNone r
+
+def anySelf (c : Err) : List Err → Bool
+  | [] => false
+  | r :: rs => selfMatch c r || anySelf c rs
+
+def anyMark (P : Proc) (m : Mark) : List Mark → Bool
+  | [] => false
+  | rm :: rs => equalMarks m rm || anyMark P m rs
+
+def isAnyPhase2 (P : Proc) (refMarks : List Mark) : List Err → Bool
+  | [] => false
+  | c :: rest => anyMark P (getMark P c) refMarks || isAnyPhase2 P refMarks rest
+
+mutual
+def isAnyPhase1 (P : Proc) (rs : List Err) : Err → Bool
+  | .leaf id k => anySelf (.leaf id k) rs
+  | .barrier id m h => anySelf (.barrier id m h) rs
+  | .wrap id k c => anySelf (.wrap id k c) rs || isAnyPhase1 P rs c
+  | .second id c s => anySelf (.second id c s) rs || isAnyPhase1 P rs c
+  | .multi id k cs => anySelf (.multi id k cs) rs || isAnyBranches P rs cs
+def isAnyBranches (P : Proc) (rs : List Err) : List Err → Bool
+  | [] => false
+  | b :: rest =>
+    (isAnyPhase1 P rs b || isAnyPhase2 P (rs.map (getMark P)) (chain b)) || isAnyBranches P rs rest
+end
+
+/-- `markers.IsAny(e, refs...)` for non-nil `e` (nil references are skipped). -/
+def isAnyB (P : Proc) (e : Err) (refs : List (Option Err)) : Bool :=
+  let rs := dropNone refs
+  isAnyPhase1 P rs e || isAnyPhase2 P (rs.map (getMark P)) (chain e)
 
 end ErrModel
